@@ -141,6 +141,8 @@ impl InstructionWithStr {
 
 impl Exec for InstructionWithStr {
     fn exec(&self, interpreter: &mut Interpreter) -> ExecResult {
+        #[cfg(feature = "verif")]
+        let _text = crate::verif::note_text(&self.str);
         self.instruction.exec(interpreter)
     }
 }
@@ -264,6 +266,10 @@ impl Instruction {
 
 impl Exec for Instruction {
     fn exec(&self, interpreter: &mut Interpreter) -> ExecResult {
+        #[cfg(feature = "verif")]
+        if let Some(result) = crate::verif::intercept(self, interpreter) {
+            return result;
+        }
         match_any! { self,
             Self::Variable(var) => Ok(var.clone()),
             Self::LocalVariable(ident, _) => interpreter
